@@ -131,7 +131,7 @@ PROPS = {
         'level_text': 'Proof over R about the model of check_intersection (after the fix deriving the shell count from the cell heights): if the check finds nothing (a score is reported) then NO two distinct lattice images of symmetry copies properly meet, for all copies i,j and all lattice vectors however far (prefilter soundness from orthogonal placements and the enclosing radius, |uA+vB| >= |u| a sin t, shells*min(a,b)*sin t >= 2R for the generated shell rule, translation invariance and symmetry of the pair tests, completeness of the pair tests from C12). Discs: the open disc-unions of distinct images are disjoint. Polygons: edges that really share a point and are not near-parallel are excluded; overlapping interiors of convex copies force such a pair of edges (C12Convex/C12Orient/C12Polygon) up to the explicit angle and not-nested hypotheses. check_intersection, score, positions and periodic_images are regenerated from the source and proved equal to the model (TiePacked, TieSite, TieImages).',
         'level_note': 'Trusted: Lean kernel + 3 axioms; model of packed.rs/cell.rs/site.rs tied by bit-exact state/optc families; shell rule and prefilter constants regenerated by the translator and pinned by a decidable obligation; f64 rounding outside the theorem.',
         'technique': 'Lean 4 geometric proof over R + source-to-Lean translation of check_intersection / positions / periodic_images with tie theorems + translator-pinned constants + bit-exact differential correspondence',
-        'theorems': ['Proofs.C01', 'Proofs.C12Convex', 'Proofs.TieDisc', 'Proofs.TieLine', 'Proofs.TieHardShape', 'Proofs.TiePacked', 'Proofs.TieImages', 'Proofs.TieSite', 'Proofs.C12Orient', 'Proofs.C12Polygon', 'Proofs.C12Placed', 'Proofs.C01Polygon', 'Proofs.SrcC01', 'Proofs.TieShapeDispatch'],
+        'theorems': ['Proofs.C01', 'Proofs.C12Convex', 'Proofs.TieDisc', 'Proofs.TieLine', 'Proofs.TieHardShape', 'Proofs.TiePacked', 'Proofs.TieImages', 'Proofs.TieSite', 'Proofs.C12Orient', 'Proofs.C12Polygon', 'Proofs.C12Placed', 'Proofs.C01Polygon', 'Proofs.SrcC01', 'Proofs.TieShapeDispatch', 'Proofs.TieOps'],
         'families': [('state_hard', 2500, 40000), ('optc_hard', 200, 4000), ('pair_hard', 1500, 20000)],
         'search': (15, 400),
         'rule': 'state: 7 groups x polygons/radial/circle/trimers x cells over the optimiser box (dense and dilute) incl. bound-clamped coordinates; non-trivial = any ok reply; search: exhaustive lattice-overlap oracle (shells from cell heights + margin, SAT / disc distances) on adversarial dense/skewed/elongated states, on far-overlap-only states found by geometric rejection sampling, and on states returned by the optimiser',
@@ -153,7 +153,7 @@ PROPS = {
         'level_text': 'Proof over R about the model of PotentialState::score (after the weight fix): score = -(in-cell pairs once + 1/2 * ordered image pairs over 3 shells)/N with weight and shell count regenerated from the source; for a symmetric pair energy (all particles alike, C13) this is -(1/N)*(1/2)*sum_i sum over all other images (j,T) in the box of E(i,j+T): every pair of distinct images counted once per molecule, independent of whether a neighbour is an in-cell copy or a periodic image; for cut potentials every term outside the box of k shells is exactly 0 when k*min(a,b)*sin t >= cutoff + 2*extent, so the box sum equals every larger box sum. Partial: uncut potential = the truncated sum (tail not bounded); unlike particles (F11b) and images beyond shell 3 (F7) are known findings; invariance under re-description is covered by the lattice-sum and origin-shift oracles.',
         'level_note': 'Trusted: Lean kernel + 3 axioms; score model tied by bit-exact state/optc families; constants (3 shells, weight 1/2, normalisation) regenerated by the translator and pinned.',
         'technique': 'Lean 4 proof over R (finite lattice sums) + source-to-Lean translation of the function bodies with tie theorems + translator-pinned constants + bit-exact differential correspondence + independent lattice-sum oracle',
-        'theorems': ['Proofs.C03', 'Proofs.TieLJ', 'Proofs.TieLJShape', 'Proofs.TiePotential', 'Proofs.TieImages', 'Proofs.TieSite', 'Proofs.SrcC03', 'Proofs.TieShapeDispatch'],
+        'theorems': ['Proofs.C03', 'Proofs.TieLJ', 'Proofs.TieLJShape', 'Proofs.TiePotential', 'Proofs.TieImages', 'Proofs.TieSite', 'Proofs.SrcC03', 'Proofs.TieShapeDispatch', 'Proofs.TieOps'],
         'families': [('state_lj', 2500, 40000), ('pair_lj', 1500, 20000), ('optc_lj', 150, 3000)],
         'search': (15, 400),
         'rule': 'state: LJ circle and trimers x 7 groups x cells incl. flat/skewed; search: independent closed-form lattice sum (code convention and each-pair-once convention, exhaustive shells for cut potentials) against score(), and origin shifts by symmetry-equivalent half lattice vectors (tolerance for the uncut potential = truncation error measured by the oracle)',
@@ -211,7 +211,7 @@ PROPS = {
         'level_text': 'Proof over R. Discs complete: test <=> the open discs share a point; symmetric; invariant under common rigid motions/reflections. Segments (after the tolerance fix): test <=> not near-parallel (|cross| <= 1e-12 |a||b|) and the 1e-12-extended segments share a point; yes implies points of the true segments within 1e-12(|a|+|b|); complete for non-near-parallel segments sharing a point; symmetric; invariant under orthogonal maps. Polygons: test <=> some such edge pair; coincident copies detected. Convex polygons: for closed strictly convex outlines of either orientation (which every placement of Shape.polygon n is: polygon_convexCW, ConvexOutline.transform) a common strictly interior point, neither outline nested strictly inside the other, forces two edges to share a point (convex_overlap_edges) and hence a positive test when meeting edges are not near-parallel (convex_overlap_detected_oriented). Partial: the angle hypothesis (crossings above the 1e-12 relative tolerance) and not-nestedness of congruent copies stay explicit hypotheses.',
         'level_note': 'Trusted: Lean kernel + 3 axioms; pair predicates tied by the bit-exact pair family; tolerance constant regenerated by the translator and pinned.',
         'technique': 'Lean 4 proof (planar geometry over R, convex outlines) + source-to-Lean translation of the pair predicates with tie theorems + bit-exact differential correspondence + separating-axis oracle',
-        'theorems': ['Proofs.C12', 'Proofs.C12Convex', 'Proofs.TieDisc', 'Proofs.TieLine', 'Proofs.TieHardShape', 'Proofs.C12Orient', 'Proofs.C12Polygon', 'Proofs.C12Placed', 'Proofs.SrcC12'],
+        'theorems': ['Proofs.C12', 'Proofs.C12Convex', 'Proofs.TieDisc', 'Proofs.TieLine', 'Proofs.TieHardShape', 'Proofs.C12Orient', 'Proofs.C12Polygon', 'Proofs.C12Placed', 'Proofs.SrcC12', 'Proofs.TieOps'],
         'families': [('pair_hard', 4000, 80000), ('mat', 1000, 20000)],
         'search': (12, 300),
         'rule': 'pair: line/atom/shape intersects on placements around contact distance, transforms; search: separating-axis (convex polygons) and disc-distance oracle with 1e-9 tolerance, argument swap, common rigid motion/reflection, aligned special configurations (parallel edges, shared vertices, coincident copies, displacement along an edge direction)',
@@ -222,7 +222,7 @@ PROPS = {
         'level_text': 'Proof over R: uncut energy = 4 eps ((s^2/r^2)^6 - (s^2/r^2)^3) = 4 eps((s/r)^12-(s/r)^6); cut: shifted inside, exactly 0 at and beyond the cutoff; depends on the squared distance only; invariant under common rigid motions; >= -eps with equality iff (s^2/r^2)^3 = 1/2; molecule energy = sum over particle pairs; trimer constants sigma = 2 radius, cutoff 7/2 (generated). Partial: symmetry proved for like particles only; for unlike particles it is FALSE of the code (kernel-decided witness over Q) - known finding F11.',
         'level_note': 'Trusted: Lean kernel + 3 axioms; LJ2/LJShape2 energy tied by the bit-exact pair family.',
         'technique': 'Lean 4 proof over R + kernel-decided counterexample over Q + source-to-Lean translation of the function bodies with tie theorems + bit-exact differential correspondence',
-        'theorems': ['Proofs.C13', 'Proofs.TieLJ', 'Proofs.TieLJShape', 'Proofs.SrcC13'],
+        'theorems': ['Proofs.C13', 'Proofs.TieLJ', 'Proofs.TieLJShape', 'Proofs.SrcC13', 'Proofs.TieOps'],
         'families': [('pair_lj', 4000, 80000)],
         'search': (10, 240),
         'rule': 'pair: lj2 energies over 3.5 orders of magnitude in r, sigma, epsilon, cut and uncut, molecule energies under random placements; search: closed-form oracle (powf), zero beyond cutoff, minimum, rigid-motion invariance, symmetry (like and unlike particles separately), molecule = sum over pairs',
